@@ -1628,6 +1628,21 @@ def fs1(F, R):
                         if q[0] == "call" and q[1] and q[1].endswith(("chunks_exact", "chunks")) and len(q[2]) == 2:
                             w2 = slice_window(q[2][0])
                             start = w2[1] if w2 is not None else ("c", 0, None)
+        # the sector that is read is the one that holds the entry of the cluster the scan stands on: its number is worked out
+        # inside the scan (from the current cluster), not once before it
+        for rb_, rt_ in fn.calls():
+            if call_matches(rt_, ("BlockCache::read",)):
+                ix_ = strip_refs(fn.term_of_operand(rt_["args"][1], rb_))
+                loops_ = [l_ for l_ in fn.loops() if rb_ in l_[1]]
+                if loops_:
+                    outer_ = max(loops_, key=lambda l_: len(l_[1]))
+                    if ix_[0] == "var":
+                        stale_ = [d_ for d_ in fn.defs().get(ix_[1], []) if d_[0] in ("assign", "call") and d_[1] not in outer_[1]]
+                    elif ix_[0] == "call" and isinstance(ix_[3], int):
+                        stale_ = [ix_] if ix_[3] not in outer_[1] else []        # (a single-definition local resolves to its defining call: where that call is made)
+                    else:
+                        stale_ = []
+                    R.require(not stale_, fn0, "sector-of-current-cluster:%d" % width, "the FAT sector read inside the scan loop is computed before the loop: after the first sector the scan tests that sector again while counting the next sector's clusters", fn.loc(rb_))
         ok = start is not None and starts_at_entry(fn, start, width)
         R.require(ok, fn0, "entry-of-cluster:%d" % width, "the %d-byte FAT entries the scan tests are not read from (cluster * %d) %% 512 of the block onwards (start: %s): the scan tests entries of other clusters than the one it counts" % (width, width, tstr(start)[:80] if start is not None else None), fn.loc(b))
 
@@ -1646,6 +1661,38 @@ def we1(F, R):
     around = fn.reach([0], cut_edges=cut, cut_blocks=wbs)
     rets = [rb for rb in around if fn.term(rb)["k"] == "Return"]
     R.require(not rets, fn, "no-own-refusal", "write_entry_to_disk can return without writing the entry back and without any of its calls having failed (a refusal / shortcut of its own)", fn.loc(0))
+
+
+@rule("HN2", ["C16", "C05"], floor=3,
+      doc="a stale hint is always replaced: (i) every successful alloc_cluster stores a fresh next_free_cluster (no 'the old hint is still ahead' shortcut - the hint read at mount may lie outside the volume and must not survive the first allocation); (ii) in free_cluster_chain / truncate_cluster_chain the only condition on the hint itself under which it is lowered to a freed cluster is `hint > freed cluster` (no range test on the old hint, which would keep an out-of-range one)")
+def hn2(F, R):
+    from .ev import cmp_forms
+    is_hint_place = lambda q: q[0] == "place" and "next_free_cluster" in [e for e in q[2] if isinstance(e, str)]
+    fn = F.fn(FATVOL + "::alloc_cluster")
+    stores = [b for b, i, s_ in fn.stmts() if s_["k"] == "Assign" and s_["p"]["proj"] and [e[2] for e in s_["p"]["proj"] if e[0] == "field"][-1:] == ["next_free_cluster"]]
+    R.require(bool(stores), fn, "alloc:hint-store", "alloc_cluster never stores next_free_cluster", fn.loc(0))
+    around = fn.reach([0], cut_blocks=stores)
+    leak = [x for x in ok_returns(fn) if x[0] in around]
+    R.require(not leak, fn, "alloc:hint-always-refreshed", "alloc_cluster can return Ok without storing a fresh next_free_cluster: a hint that was out of range (or stale) when the volume was mounted survives allocations and is written back to the FSInfo sector", fn.loc(leak[0][0], leak[0][1]) if leak else fn.loc(0))
+    for name in ("free_cluster_chain", "truncate_cluster_chain"):
+        fn = F.fn(FATVOL + "::" + name)
+        for b, i, s_ in fn.stmts():
+            if not (s_["k"] == "Assign" and s_["p"]["proj"]):
+                continue
+            dst = fn.term_of_place(s_["p"])
+            if "next_free_cluster" not in tstr(dst):
+                continue
+            extra = []
+            for (gb, gi, g) in all_guards(fn):
+                if not fn.unreachable_without(b, [(gb, gi)]):
+                    continue
+                forms = cmp_forms(g)
+                if not forms or not any(has_sub(a_, is_hint_place) or has_sub(b_, is_hint_place) for (op, a_, b_, t_) in forms):
+                    continue
+                ok_form = any(op == "Gt" and t_ and has_sub(a_, is_hint_place) and not has_sub(b_, is_hint_place) and not has_sub(b_, lambda q: q[0] == "place" and "cluster_count" in [e for e in q[2] if isinstance(e, str)]) for (op, a_, b_, t_) in forms)
+                if not ok_form:
+                    extra.append(repr(g)[:70])
+            R.require(not extra, fn, name + ":hint-lowered-unconditionally", "%s lowers the next-free hint to a freed cluster only under a further condition on the old hint (%s): an out-of-range hint read at mount is then never repaired" % (name, extra), fn.loc(b, i))
 
 
 @rule("FO2", ["C07", "C08"], floor=2,
